@@ -3,6 +3,7 @@ from .. import conv, scen, stackprop
 
 CODES = {1: "a FindService was not sent to the multicast group", 2: "more find rounds than 1 + REPETITIONS_MAX", 3: "a find round at an instant outside the schedule",
          4: "a find entry differs from the watched ids / find TTL", 5: "a find was sent for a service with a known live offer", 6: "a find round omitted a watched service that is not found",
+         7: "a FindService was sent after a round instant at which every watched service was found",
          98: "a transmitted datagram did not decode"}
 
 
@@ -75,15 +76,54 @@ def find_directed(r):
     return dict(cfg=cfg, insts=[], draws=[d0] * 4, events=events, end=rounds[-1] + 2 * T, rev=r.random() < 0.3, fuel=20000)
 
 
+def all_found_early(r):
+    """Every watched service is already known when the initial round is due (so the find phase ends there without sending);
+    then one of them goes away before a later round instant: still no FindService may follow."""
+    T, MS = scen.T, scen.MS
+    rep = r.choice([1, 2, 3])
+    base = r.choice([T // 8, T // 4])
+    imin = r.choice([10 * MS, 20 * MS])
+    imax = imin + r.choice([0, 50 * MS])
+    cfg = (imin, imax, 0, 0, rep, base, 0, r.choice([1, 3]), 3, 5, None, r.choice([0, 5 * MS]))
+    d0 = r.choice([imin, imax])
+    rounds = [d0]
+    for i in range(rep):
+        rounds.append(rounds[-1] + (1 << i) * base)
+    svcs = [scen.SERVICES[0], scen.SERVICES[2]][: r.choice([1, 2])]
+    filters = [r.choice([s, type(s)(s.service_id)]) for s in svcs]
+    regs = [(0, (1, [3, conv.s_service(f), [0, k]])) for k, f in enumerate(filters)]
+    peers = {a: scen.Peer(a) for a in (1, 2)}
+    raw = []
+    for s in svcs:
+        raw.append((r.randrange(1, d0), ("dg", r.choice([1, 2]), [s.create_offer_entry(3)])))
+    gone = r.randrange(1, rep + 1)
+    lo, hi = rounds[gone - 1] + 1, rounds[gone] - 1
+    t_off = r.randrange(lo, hi + 1) if hi >= lo else lo
+    how = r.choice(["stop", "stop", "connlost"])
+    victim = r.randrange(len(svcs))
+    if how == "stop":
+        raw.append((t_off, ("dg", raw[victim][1][1], [svcs[victim].create_offer_entry(0)])))
+    else:
+        raw.append((t_off, ("api", [2])))
+    raw.sort(key=lambda x: x[0])
+    events = list(regs) + [(0, (1, [13]))]
+    for t, ev in raw:
+        if ev[0] == "api":
+            events.append((t, (1, ev[1])))
+        else:
+            events.append((t, (0, ev[1], False, peers[ev[1]].datagram(ev[2], False))))
+    return dict(cfg=cfg, insts=[], draws=[d0] * 4, events=events, end=rounds[-1] + 2 * T, rev=r.random() < 0.3, fuel=20000)
+
+
 def run(ctx):
     r = ctx.rng
     quick = ctx.tier == "quick"
     ctx.rule = ("1-4 watched filters (with wildcards), timing grid (initial-delay window, 0-4 repetitions, base delay), offers / stop-offers / expiries for any subset at "
-                "instants around the scheduled rounds (on, +-1 tick, anywhere), incl. offers that expire again between rounds; complete traces compared with the "
+                "instants around the scheduled rounds (on, +-1 tick, anywhere), incl. offers that expire again between rounds and every watched service being known before the initial round and lost again later; complete traces compared with the "
                 "model; implementation trace judged by check_C13 (liveness of offers computed by the abstract TTL-store specification)")
     ctx.assumptions = ["no unwatch during the run (a filter without listeners is still searched for: observation O2, outside the domain)"]
     n = 300 if quick else 10000
-    scs = stackprop.corpus_scenarios("C13") + [find_directed(r) if k % 2 else find_scenario(r) for k in range(n)]
+    scs = stackprop.corpus_scenarios("C13") + [(all_found_early(r) if k % 4 == 1 else find_directed(r)) if k % 2 else find_scenario(r) for k in range(n)]
     stackprop.run_scenarios(ctx, scs, 3013, CODES, what="find client")
 
 
